@@ -69,7 +69,8 @@ def units(tier, variant):
     A = alphabet(variant)
     out = []
     if tier == 'quick':
-        ws = list(LZ.words(A, 1, 3))
+        # + depth 4 behind the steep sphere (symbol 3) ending on the even asphere: rays that start beyond the next surface
+        ws = list(LZ.words(A, 1, 3)) + [w for w in LZ.words(A[:8], 4, 4) if w[2] == 3 and w[3] == 7]
     else:
         ws = list(LZ.words(A, 1, 3)) + list(LZ.words(A[:8], 4, 4))
     for w in ws:
